@@ -5,8 +5,12 @@
    the driver instantiates it with ChaCha20 / HMAC-SHA256 (`ldk` below) and LDK's key derivations,
    and must reproduce the real packets byte for byte.  ECDH / ephemeral-key blinding
    (`construct_onion_keys_generic`) is NOT modelled: per-hop shared secrets are inputs.
-   Attribution data (hold times) has an EXECUTABLE mirror here (section "Attribution data") that is
-   validated against the real code by the correspondence; no theorem is stated about it.  No Mathlib. -/
+   Attribution data (hold times): the byte-level helpers (AttributionData::{new, update, add_hmacs, crypt,
+   shift_right, shift_left, verify}) and the sender's hop loop are mirrored here by hand (their Rust
+   text is PINNED by tools/gen_onion_fail.py); the failure-relay procedures that call them
+   (build_failure_packet, process_failure_packet with its LN_MAX_MSG_LEN guard, crypt_failure_packet,
+   update_fail_htlc_wire_len, ...) are TRANSLATED from the Rust source into Generated/OnionFail.lean.
+   Theorems about both: Proofs/OnionAttr.lean, Props/C14.lean.  No Mathlib. -/
 import LdkModel.Prim.Hmac
 import LdkModel.Prim.ChaCha20
 import LdkModel.Generated.Consts
@@ -220,8 +224,9 @@ def decodeGo (C : OnionCrypto) : Nat → List FailKeys → Bytes → FailDecoded
 def decodeFailure (C : OnionCrypto) (keys : List FailKeys) (pkt : Bytes) : FailDecoded :=
   if pkt.length < 32 then .unattributable else decodeGo C 0 keys pkt
 
-/-! ## Attribution data (hold times) — EXECUTABLE MODEL ONLY: validated against the real code by the
-   c14 correspondence, no theorem is stated about it in this version -/
+/-! ## Attribution data (hold times): hand-written mirrors of the byte-level helpers (Rust text pinned by
+   tools/gen_onion_fail.py, behaviour compared byte for byte by the c14 correspondence); the procedures
+   that use them are generated (Generated/OnionFail.lean) -/
 
 /-- mirrors lightning/src/ln/onion_utils.rs::AttributionData (`MAX_HOPS * HOLD_TIME_LEN` bytes of
     hold times, `HMAC_LEN * HMAC_COUNT` bytes of truncated HMACs in the triangular layout) -/
@@ -230,9 +235,11 @@ structure Attr where
   hmacs : Bytes
   deriving DecidableEq
 
-def slice (b : Bytes) (off len : Nat) : Bytes := (b.drop off).take len
+def slice {α : Type} (b : List α) (off len : Nat) : List α := (b.drop off).take len
 /-- `copy_from_slice` / `copy_within` target: overwrite `v.length` bytes at `off` -/
-def setSlice (b : Bytes) (off : Nat) (v : Bytes) : Bytes := b.take off ++ v ++ b.drop (off + v.length)
+def setSlice {α : Type} (b : List α) (off : Nat) (v : List α) : List α := b.take off ++ v ++ b.drop (off + v.length)
+/-- `Vec::resize(n, 0)` -/
+def resize (b : Bytes) (n : Nat) : Bytes := (b ++ zeros (n - b.length)).take n
 
 -- mirrors AttributionData::new
 def Attr.new : Attr := ⟨zeros (MAX_HOPS * HOLD_TIME_LEN), zeros (HMAC_LEN * HMAC_COUNT)⟩
@@ -240,10 +247,17 @@ def Attr.new : Attr := ⟨zeros (MAX_HOPS * HOLD_TIME_LEN), zeros (HMAC_LEN * HM
 -- mirrors AttributionData::get_hmac
 def Attr.getHmac (a : Attr) (idx : Nat) : Bytes := slice a.hmacs (idx * HMAC_LEN) HMAC_LEN
 
-/-- mirrors AttributionData::write_downstream_hmacs: the bytes fed to the HMAC engine -/
-def Attr.downstreamHmacs (a : Attr) (position : Nat) : Bytes :=
-  ((List.range position).foldl (fun (acc : Bytes × Nat) j => (acc.1 ++ a.getHmac acc.2, acc.2 + (MAX_HOPS - j - 1)))
-    ([], MAX_HOPS + MAX_HOPS - position - 1)).1
+/-- one iteration of the loop of write_downstream_hmacs: feed `get_hmac(hmac_idx)`, advance by the block size -/
+def downstreamStep {α : Type} (h : List α) (acc : List α × Nat) (j : Nat) : List α × Nat :=
+  (acc.1 ++ slice h (acc.2 * HMAC_LEN) HMAC_LEN, acc.2 + (MAX_HOPS - j - 1))
+
+/-- mirrors AttributionData::write_downstream_hmacs on the raw `hmacs` array (generic in the element type: it only
+    SELECTS data): the bytes fed to the HMAC engine -/
+def downstreamG {α : Type} (h : List α) (position : Nat) : List α :=
+  ((List.range position).foldl (downstreamStep h) ([], MAX_HOPS + MAX_HOPS - position - 1)).1
+
+/-- mirrors AttributionData::write_downstream_hmacs -/
+def Attr.downstreamHmacs (a : Attr) (position : Nat) : Bytes := downstreamG a.hmacs position
 
 /-- the truncated HMAC for an assumed `position` (0 = final node) -/
 def Attr.hmacFor (C : OnionCrypto) (a : Attr) (um message : Bytes) (position : Nat) : Bytes :=
@@ -266,21 +280,36 @@ def Attr.crypt (C : OnionCrypto) (a : Attr) (ammagext : Bytes) : Attr :=
   ⟨xorB a.holdTimes (ks C ammagext 0 a.holdTimes.length),
    xorB a.hmacs (ks C ammagext a.holdTimes.length a.hmacs.length)⟩
 
-/-- mirrors AttributionData::shift_right (`copy_within` = memmove: sources are read before writing) -/
-def Attr.shiftRight (a : Attr) : Attr :=
-  let ht := setSlice a.holdTimes HOLD_TIME_LEN (a.holdTimes.take ((MAX_HOPS - 1) * HOLD_TIME_LEN))
-  let step (st : Bytes × Nat × Nat × Nat) (_ : Nat) : Bytes × Nat × Nat × Nat :=
-    let (h, src, dst, len) := st
-    (setSlice h (dst * HMAC_LEN) (slice h (src * HMAC_LEN) (len * HMAC_LEN)), src - (len + 2), dst - (len + 1), len + 1)
-  ⟨ht, ((List.range (MAX_HOPS - 1)).foldl step (a.hmacs, HMAC_COUNT - 2, HMAC_COUNT - 1, 1)).1⟩
+/-- one `self.hmacs.copy_within(src*HMAC_LEN .. (src+len)*HMAC_LEN, dst*HMAC_LEN)` (memmove: the source is
+    read before writing) of the shift loops; generic in the element type (the shifts only MOVE data) -/
+def copyWithinHm {α : Type} (h : List α) (src dst len : Nat) : List α :=
+  setSlice h (dst * HMAC_LEN) (slice h (src * HMAC_LEN) (len * HMAC_LEN))
+
+/-- loop state of the shift loops: (hmacs, src_idx, dest_idx, copy_len) -/
+abbrev ShiftSt (α : Type) := List α × Nat × Nat × Nat
+
+def shiftRightStep {α : Type} (st : ShiftSt α) (_ : Nat) : ShiftSt α :=
+  (copyWithinHm st.1 st.2.1 st.2.2.1 st.2.2.2, st.2.1 - (st.2.2.2 + 2), st.2.2.1 - (st.2.2.2 + 1), st.2.2.2 + 1)
+
+def shiftLeftStep {α : Type} (st : ShiftSt α) (_ : Nat) : ShiftSt α :=
+  (copyWithinHm st.1 st.2.1 st.2.2.1 st.2.2.2, st.2.1 + st.2.2.2, st.2.2.1 + st.2.2.2 + 1, st.2.2.2 - 1)
+
+/-- the hold-time half of AttributionData::shift_right: `copy_within(..(MAX_HOPS-1)*HOLD_TIME_LEN, HOLD_TIME_LEN)` -/
+def shiftRightHt {α : Type} (ht : List α) : List α := setSlice ht HOLD_TIME_LEN (ht.take ((MAX_HOPS - 1) * HOLD_TIME_LEN))
+/-- the HMAC half of AttributionData::shift_right (the loop, from the last block backwards) -/
+def shiftRightHm {α : Type} (h : List α) : List α :=
+  ((List.range (MAX_HOPS - 1)).foldl shiftRightStep (h, HMAC_COUNT - 2, HMAC_COUNT - 1, 1)).1
+/-- the hold-time half of AttributionData::shift_left: `copy_within(HOLD_TIME_LEN.., 0)` -/
+def shiftLeftHt {α : Type} (ht : List α) : List α := setSlice ht 0 (ht.drop HOLD_TIME_LEN)
+/-- the HMAC half of AttributionData::shift_left (the loop, from the first block forwards) -/
+def shiftLeftHm {α : Type} (h : List α) : List α :=
+  ((List.range (MAX_HOPS - 1)).foldl shiftLeftStep (h, MAX_HOPS, 1, MAX_HOPS - 1)).1
+
+/-- mirrors AttributionData::shift_right -/
+def Attr.shiftRight (a : Attr) : Attr := ⟨shiftRightHt a.holdTimes, shiftRightHm a.hmacs⟩
 
 /-- mirrors AttributionData::shift_left -/
-def Attr.shiftLeft (a : Attr) : Attr :=
-  let ht := setSlice a.holdTimes 0 (a.holdTimes.drop HOLD_TIME_LEN)
-  let step (st : Bytes × Nat × Nat × Nat) (_ : Nat) : Bytes × Nat × Nat × Nat :=
-    let (h, src, dst, len) := st
-    (setSlice h (dst * HMAC_LEN) (slice h (src * HMAC_LEN) (len * HMAC_LEN)), src + len, dst + len + 1, len - 1)
-  ⟨ht, ((List.range (MAX_HOPS - 1)).foldl step (a.hmacs, MAX_HOPS, 1, MAX_HOPS - 1)).1⟩
+def Attr.shiftLeft (a : Attr) : Attr := ⟨shiftLeftHt a.holdTimes, shiftLeftHm a.hmacs⟩
 
 /-- mirrors AttributionData::verify -/
 def Attr.verify (C : OnionCrypto) (a : Attr) (um message : Bytes) (position : Nat) : Option Nat :=
@@ -293,17 +322,6 @@ structure FailKeysX where
   ammagext : Bytes
 
 def FailKeysX.base (k : FailKeysX) : FailKeys := ⟨k.um, k.ammag⟩
-
-/-- mirrors build_failure_packet including update_attribution_data + crypt -/
-def buildFailureX (C : OnionCrypto) (k : FailKeysX) (code : Nat) (data : Bytes) (holdTime : Nat) : Bytes × Attr :=
-  let u := buildUnencryptedFailure C k.base Ldk.DEFAULT_MIN_FAILURE_PACKET_LEN code data
-  (wrapFailure C k.base u, (Attr.new.update C k.um u holdTime).crypt C k.ammagext)
-
-/-- mirrors process_failure_packet + crypt_failure_packet (a relaying hop); the LN_MAX_MSG_LEN drop of
-    the attribution data (failure data beyond ~64 kB) is not modelled -/
-def relayFailureX (C : OnionCrypto) (k : FailKeysX) (pkt : Bytes) (attr : Option Attr) (holdTime : Nat) : Bytes × Attr :=
-  let a := match attr with | some a => a.shiftRight | none => Attr.new
-  (wrapFailure C k.base pkt, (a.update C k.um pkt holdTime).crypt C k.ammagext)
 
 /-- the hop loop of process_onion_failure_inner with attribution data: hold times of the hops up to
     the failing one (or up to the first hop whose attribution HMAC fails) -/
@@ -348,15 +366,20 @@ def decodeFulfillAttr (C : OnionCrypto) (keys : List FailKeysX) (a : Attr) : Lis
 
 /-! ## Concrete instantiation: ChaCha20 (zero nonce) / HMAC-SHA256 and LDK's key derivations -/
 
-/-- how many keystream bytes are prepared per key (2 × ONION_DATA_LEN fits); positions beyond are
-    computed block by block -/
+/-- how many keystream bytes are prepared per key (2 × ONION_DATA_LEN fits); positions beyond come from a
+    second, lazily computed table, and beyond that are computed block by block -/
 def streamTable : Nat := 4096
+
+/-- second, lazily computed table (failure packets can be as long as a lightning message: 65535 bytes) -/
+def streamTableBig : Nat := 66560
 
 def ldkStream (key : Bytes) : KeyStream :=
   let kb := ByteArray.mk key.toArray
   let nonce := ByteArray.mk (Array.replicate 12 0)
   let t := Prim.ChaCha20.streamAtBA kb nonce 0 streamTable
-  ⟨fun i => if i < t.size then t.get! i else (Prim.ChaCha20.streamAtBA kb nonce i 1).get! 0⟩
+  let big : Thunk ByteArray := Thunk.mk fun _ => Prim.ChaCha20.streamAtBA kb nonce 0 streamTableBig
+  ⟨fun i => if i < t.size then t.get! i else if i < streamTableBig then big.get.get! i
+            else (Prim.ChaCha20.streamAtBA kb nonce i 1).get! 0⟩
 
 /-- ChaCha20 (IETF, nonce 0) and HMAC-SHA256 — validated against the Rust crates by the c14
     correspondence, not proved -/
